@@ -175,7 +175,7 @@ class Model:
                 'correct': a.get('correct'), 'score': a.get('score'), 'category': a.get('category'),
                 'scores': list(a.get('_scores', []))}
 
-    def run_driver(self, resolve_fn, cfgs, ranks, with_ignored=True):
+    def run_driver(self, resolve_fn, cfgs, ranks, with_ignored=True, then=None):
         """Abstractly run a resolver module's resolve(report, priority_key) on a small report; the key function is a
         symbolic rank. Returns the result dict (or, for the sectional resolver, that of the only group)."""
         fd, final0 = self.new_final({}, {})
@@ -198,11 +198,24 @@ class Model:
             finals.append(final)
             return final
         fd.calls['set_correct_no_errors'] = fresh_final
+
+        def b_isinstance(o, t):
+            ts = t if isinstance(t, tuple) else (t,)
+            return any(isinstance(x, str) and isinstance(o, Obj) and o._name == x for x in ts) or \
+                any(isinstance(x, type) and not isinstance(o, Obj) and isinstance(o, x) for x in ts)
+        fd.calls['isinstance'] = b_isinstance
+        inner_resolver = fd.resolver
+        fd.resolver = lambda n: 'FinalFeedback' if n == 'FinalFeedback' else inner_resolver(n)
         fd.methods['merge'] = lambda recv, fb: recv.attrs['__fd__'].call_function(self.merge_fn, [fb], bound_self=recv)
         fd.methods['finalize'] = lambda recv: recv.attrs['__fd__'].call_function(self.finalize_fn, [], bound_self=recv)
         key = lambda fb: fb.attrs['__rank__']
         try:
             out = fd.call_function(resolve_fn, [report, key])
+            if then is not None:
+                # the same report is resolved again after its visibility changed (an environment resolves on exit
+                # although the script already did; an instructor mutes or suppresses something in between)
+                then(fbs, report)
+                out = fd.call_function(resolve_fn, [report, key])
         except Raised as r:
             return ('raised', r.kind, r.detail)
         if isinstance(out, dict):
